@@ -340,7 +340,9 @@ class Oracle(object):
     self.idx += 1
     if m[0] == 'UAdd':
       cols, recs = m[1], m[2]
-      fires = self.when != 'NEVER' and TR not in cols
+      # "... unless NEVER or the action supplied a value" - a supplied value "is kept (unless the column
+      # depends on itself)": a data-cleaning column cleans the supplied value (test_self_trigger)
+      fires = self.when != 'NEVER' and (TR not in cols or self.selfdep)
       for r, kv in recs:
         self.cancel_row(r, 'add')
         if fires:
@@ -512,6 +514,12 @@ def gen_bundle(rng, doc, first=False):
   tab = copy.deepcopy(doc.table())
   if first:
     return [gen_first(rng, tab)]
+  if tab and rng.random() < 0.08:
+    # a schema change followed, in the same bundle, by an update of a cell the changed column feeds
+    c = rng.choice([A, B, C, F, GG])
+    s = SRC.get(c, c)
+    rs = rng.sample(sorted(tab), min(len(tab), rng.choice([1, 2])))
+    return [[rng.choice(['ren', 'ren', 'mod']), c], ['upd', rs, [s], [[rng.randint(0, 7)] for _ in rs]]]
   n = rng.choice([1] * 6 + [2] * 3 + [3])
   out = []
   for i in range(n):
@@ -563,7 +571,7 @@ def coq_case(cfg, results, verdicts):
 def histories(ctx):
   if getattr(ctx, '_c15', None) is None:
     ctx._c15 = []
-    n = ctx.n(160, 2500)
+    n = ctx.n(70, 1200)
     cfgs = list(CFGS)
     for i in range(n):
       cfg = cfgs[i] if i < len(cfgs) else gen_cfg(ctx.rng)
